@@ -58,8 +58,41 @@ def entries(acc):
                             acc.violation('level/noboost/%s' % name, '%s(..., error=%r, boost_error=False) returned level %r' % (name, lvl, ra[1]), ('entries',))
 
 
+def seq_entries(acc):
+    for mode in ('numeric', 'alphanumeric', 'byte'):
+        for n in (1, 3, 6, 10, 14):
+            content, parts, eb = S.content_for(mode, n)
+            for v in (1, 2, 5):
+                for lvl in (None, 'L', 'M', 'Q', 'H'):
+                    for boost in (True, False):
+                        kw = {'version': v}
+                        if lvl is not None:
+                            kw['error'] = lvl
+                        if not boost:
+                            kw['boost_error'] = False
+                        try:
+                            seq = segno.make_sequence(content, **kw)
+                        except ValueError:
+                            continue
+                        if len(seq) != 1:
+                            continue
+                        q = seq[0]
+                        try:
+                            ref = segno.make(content, micro=False, **kw)
+                            want = (ref.version, ref.error)
+                        except ValueError:
+                            want = None
+                        acc.eval(('seq-entry', mode, n, v, lvl, boost), nontrivial=True, outcome=(q.version, q.error), state=('seq-entry', mode, n, v, lvl, boost))
+                        if want is not None and (q.version, q.error) != want:
+                            acc.violation('entry-point/make_sequence', 'make_sequence(<%d %s chars>, **%r)[0] is %s-%s, make() gives %s-%s'
+                                          % (n, mode, kw, q.version, q.error, want[0], want[1]), ('entries',))
+                        if not boost and q.error != (lvl or 'L'):
+                            acc.violation('level/noboost/make_sequence', 'make_sequence(..., **%r) returned level %r' % (kw, q.error), ('entries',))
+
+
 def run_case(case, acc):
     if case[0] == 'entries':
+        seq_entries(acc)
         return entries(acc)
     if case[0] == 'boostpair':
         _, v, lvl, mode, n = case
